@@ -57,7 +57,7 @@ def run(ctx):
 
     # ---- the real library
     drv = M.build_driver()
-    cases, g = M.gen_cases(ctx)
+    cases, g = M.gen_cases(ctx, pairwise=False)
     if cases is None:
         ctx.note_inconclusive("TLC gave no cases (rc=%s)" % g.rc)
         return
